@@ -125,4 +125,11 @@ theorem slt_iff (a b : BitVec 64) : BitVec.slt a b = true ↔ a.toInt < b.toInt 
 theorem sle_iff (a b : BitVec 64) : BitVec.sle a b = true ↔ a.toInt ≤ b.toInt := by
   simp [BitVec.sle]
 
+instance : DecidableEq (Except DeferErr (BitVec 64)) := fun a b =>
+  match a, b with
+  | .ok x, .ok y => if h : x = y then isTrue (by rw [h]) else isFalse (fun h' => h (by cases h'; rfl))
+  | .error x, .error y => if h : x = y then isTrue (by rw [h]) else isFalse (fun h' => h (by cases h'; rfl))
+  | .ok _, .error _ => isFalse (fun h' => by cases h')
+  | .error _, .ok _ => isFalse (fun h' => by cases h')
+
 end Nsq.Proofs.Num
